@@ -316,12 +316,16 @@ func runC13(c *Ctx) {
 	}
 	var sites []site
 	rowRender := c.Method(c.Named("", "Row"), true, "invokeRenderCallbacks")
+	invW := invokeWrappers(c, invoke)
 	for _, fn := range c.LibFuncs() {
+		if _, isW := invW[fn]; isW {
+			continue // a thin wrapper around the invoker: its call sites are the invocation sites
+		}
 		rpo := rpoOrder(fn)
 		eachInstr(fn, func(in ssa.Instruction) {
 			callee := staticCallee(in)
-			if callee == invoke {
-				cc2 := callCommon(in)
+			if la, isInv := logicalInvoke(in, invoke, invW); isInv {
+				cc2 := struct{ Args [4]ssa.Value }{la}
 				s := site{fn: fn, in: in, depth: loopDepth(in.Block()), order: rpo[in.Block()]*10000 + instrIndex(in), owner: cc2.Args[2]}
 				if f, _ := loadedField(cc2.Args[0]); f != nil {
 					s.role = fieldRole[f]
@@ -369,11 +373,11 @@ func runC13(c *Ctx) {
 			}
 			ord := rpo[in.Block()]*10000 + instrIndex(in)
 			d := base + loopDepth(in.Block())
-			if callee == invoke {
+			if la, isInv := logicalInvoke(in, invoke, invW); isInv {
 				s := siteAt[in]
 				tm := s.time
 				if tm == "non-constant" {
-					if par, ok := callCommon(in).Args[1].(*ssa.Parameter); ok {
+					if par, ok := la[1].(*ssa.Parameter); ok {
 						if k, ok := env[par]; ok {
 							tm = cc.timeName(k)
 						}
@@ -462,7 +466,9 @@ func runC13(c *Ctx) {
 		var holder ssa.Value
 		if s.role == "rows" {
 			holder = callCommon(s.in).Args[0]
-		} else if _, b := loadedField(callCommon(s.in).Args[0]); b != nil {
+		} else if la, isInv := logicalInvoke(s.in, invoke, invW); !isInv {
+			continue
+		} else if _, b := loadedField(la[0]); b != nil {
 			holder = b
 		}
 		for _, cf := range dominatingConds(s.in.Block()) {
@@ -860,4 +866,95 @@ func sameValueSet(a, b ssa.Value) bool {
 		}
 	}
 	return false
+}
+
+// invokeWrappers: functions (local closures or helpers) whose whole effect is one unconditional call of the
+// callback invoker with each of its four arguments taken from their own parameters or a constant. A call of such
+// a wrapper IS an invocation: the site rules look at its call sites with the arguments mapped through.
+// The value is, per invoker argument, the index of the wrapper parameter supplying it, or -1 for a constant.
+type invokeWrapper struct {
+	param [4]int
+	konst [4]ssa.Value
+}
+
+func invokeWrappers(c *Ctx, invoke *ssa.Function) map[*ssa.Function]invokeWrapper {
+	out := map[*ssa.Function]invokeWrapper{}
+	for _, fn := range c.LibFuncs() {
+		if fn == invoke || len(fn.Blocks) != 1 || len(fn.FreeVars) != 0 {
+			continue
+		}
+		var call ssa.CallInstruction
+		n := 0
+		other := false
+		for _, in := range fn.Blocks[0].Instrs {
+			switch x := in.(type) {
+			case ssa.CallInstruction:
+				if x.Common().StaticCallee() == invoke {
+					call = x
+					n++
+				} else {
+					other = true
+				}
+			case *ssa.Store, *ssa.MapUpdate, *ssa.Send, *ssa.Go, *ssa.Defer:
+				other = true
+			}
+		}
+		if n != 1 || other {
+			continue
+		}
+		args := call.Common().Args
+		if len(args) != 4 {
+			continue
+		}
+		var w invokeWrapper
+		ok := true
+		for k, a := range args {
+			w.param[k] = -1
+			if _, isK := a.(*ssa.Const); isK {
+				w.konst[k] = a
+				continue
+			}
+			found := false
+			for i, par := range fn.Params {
+				if unwrap(a, true) == ssa.Value(par) || a == ssa.Value(par) {
+					w.param[k] = i
+					found = true
+				}
+			}
+			if !found {
+				ok = false
+			}
+		}
+		if ok {
+			out[fn] = w
+		}
+	}
+	return out
+}
+
+// logicalInvoke: the four arguments (set, time, target, error receiver) of an invocation made at `in`, directly
+// or through a thin wrapper.
+func logicalInvoke(in ssa.Instruction, invoke *ssa.Function, ws map[*ssa.Function]invokeWrapper) ([4]ssa.Value, bool) {
+	var out [4]ssa.Value
+	callee := staticCallee(in)
+	if callee == nil {
+		return out, false
+	}
+	args := callCommon(in).Args
+	if callee == invoke && len(args) == 4 {
+		copy(out[:], args)
+		return out, true
+	}
+	w, ok := ws[callee]
+	if !ok || len(args) != len(callee.Params) {
+		return out, false
+	}
+	for k := 0; k < 4; k++ {
+		if w.param[k] >= 0 {
+			out[k] = args[w.param[k]]
+		} else {
+			out[k] = w.konst[k]
+		}
+	}
+	return out, true
 }
